@@ -194,8 +194,8 @@ def run(ctx, rep):
     def j1():
         import c18
         dims = c18.dimension_analysis(facts.fn("javadoc::find_content_string")["body"])
-        bad = [u[2] for u in dims["uses"] if "char" in u[3]]
-        return not bad, "byte/char dimension typing holds" if not bad else "character counts used as byte offsets: %r" % bad
+        bad = [u[2] for u in dims["uses"] if [d for d in u[3] if d not in ("byte", "const")] or "byte" not in u[3]]
+        return not bad, "byte/char dimension typing holds" if not bad else "values that are not provably byte offsets used as byte offsets: %r" % bad
 
     roots = ["validation::check_container", "diagnostic::expected_token_str"] + [c for c in facts.closures_of("validation::check_methods")]
 
